@@ -30,7 +30,23 @@ def run_one(prop: str, tier: str, root: str, evidence_dir: str) -> int:
         ctx = Ctx(root, tier)
         scope_callers: set = set()
         try:
-            mod.run(ctx, rep)
+            try:
+                mod.run(ctx, rep)
+            except (UnprovenScope, Unproven, AnalysisError):
+                raise
+            except Exception as exc:  # noqa: BLE001
+                # A rule met a shape it did not anticipate and raised.  On the pinned tree this never happens (every rule runs to its
+                # end there); on another tree it means the construct at that anchor is outside what the rule can reason about, which
+                # is "not proved for this tree" like every other unrecognised shape (DESIGN A.2 items 1 and 12): a finding, with the
+                # place in the rule that gave up.  (An unreadable tree, a vanished public anchor or a silent control stay exit 2.)
+                tb = traceback.extract_tb(exc.__traceback__)
+                where = next((fr for fr in reversed(tb) if "/sa/rules/" in fr.filename), tb[-1])
+                traceback.print_exc()
+                r = rep.rule("internal", "every rule of this property runs to its end on the tree (a rule that cannot is reported, not ignored)")
+                r.fail(f"{os.path.basename(where.filename)}:{where.name}",
+                       f"the rule {os.path.basename(where.filename)}:{where.name} (line {where.lineno}) could not be evaluated on this tree "
+                       f"({type(exc).__name__}: {str(exc)[:160]}): the code at its anchor has a shape the rule does not anticipate, so the "
+                       f"premise is not proved for this tree", file=root, line=0, stmt="")
         except UnprovenScope as e:
             # a function the argument reaches is outside the analysed subset: a finding -- unless the second-chance normal form
             # (which can fuse a private generator into the loop that consumes it) removes the need to analyse it by itself
